@@ -1351,7 +1351,13 @@ class CodeGenerator(NodeVisitor):
             self.writeline(f"if {iteration_indicator}:")
             self.indent()
             self.enter_frame(else_frame)
+            if node.recursive:
+                # The else branch is in the loop function, outside any
+                # enclosing loop.
+                self._loop_stack.append(False)
             self.blockvisit(node.else_, else_frame)
+            if node.recursive:
+                self._loop_stack.pop()
             self.leave_frame(else_frame)
             self.outdent()
 
